@@ -1196,6 +1196,26 @@ def rule_r10(chk, prog):
     n = 0
     for fn in ('is_arith_const', 'is_int_const'):
         ff = sm.func(fn)
+        # a conversion as the judge of the lexeme (directly or in a helper
+        # of the module): float()/int() accept a sign
+        scopes_ = [ff] + [sm.funcs[c_.func.id] for c_ in calls_in(ff)
+                          if isinstance(c_.func, ast.Name)
+                          and c_.func.id in sm.funcs
+                          and c_.func.id not in ('is_int_const',
+                                                 'is_arith_const',
+                                                 'is_real_const')]
+        for sc_ in scopes_:
+            for c_ in ast.walk(sc_):
+                if isinstance(c_, ast.Call) and call_name(c_) in (
+                        'float', 'int', 'decimal.Decimal', 'Decimal',
+                        'fractions.Fraction', 'Fraction'):
+                    n += 1
+                    chk.check('C03.R10', f'smtlib.{fn}', c_, False,
+                              f'"{unparse(c_)[:40]}" decides whether a leaf '
+                              'is an arithmetic constant: it accepts signed '
+                              'tokens such as "-1", and -1 // 2 == -1 is '
+                              'proposed, accepted and proposed again',
+                              loc=sm.loc(c_), nontrivial=True)
         for c in ast.walk(ff):
             pat = None
             if isinstance(c, ast.Call) and (call_name(c) or '').startswith(
